@@ -1064,6 +1064,7 @@ def null_tolerance(units):
             if u.ty(p['ty'])['c'] != 'ptr':
                 continue
             ok = True
+            unguarded = set()
             for x in fn.nodes():
                 d = None
                 k = x.get('k')
@@ -1096,8 +1097,11 @@ def null_tolerance(units):
                         return l[0] == 'T'
                     return False
                 if not guarded_by(cfg, node.id, guard):
-                    ok = False
-                    break
+                    unguarded.add(node.id)
+            if unguarded:
+                # "dereferences it" is claimed only when no path through the function avoids the dereference: one that depends
+                # on another condition (tail->next only when *head != NULL) may be protected by an invariant of the callers
+                ok = cfg.exit.id in cfg.reachable(cfg.entry.id, stop=unguarded)
             direct[(name, i)] = ok
     tol = dict(direct)
     # second pass: forwarding to intolerant callees without a guard makes the caller intolerant
